@@ -30,6 +30,12 @@ def first_op_group(t):
         if is_call(n, "std::iter::Iterator::next") and is_call(n[2][0], "ipp::attribute::IppAttributes::groups_of"):
             a = n[2][0][2]
             return len(a) == 2 and a[0] == ("var", "self") and a[1][0] == "ctor" and a[1][1] == OP
+        # groups.iter().find(|g| g.tag() == OperationAttributes): also the first such group in message order
+        if is_call(n, "std::iter::Iterator::find") and is_call(n[2][0], "core::slice::<impl [T]>::iter") and n[2][1][0] == "closure":
+            src = n[2][0][2][0]
+            src_ok = src == ("field", ("var", "self"), "groups") or (is_call(src, "ipp::attribute::IppAttributes::groups") and src[2][0] == ("var", "self"))
+            txt = show(n[2][1][1]["body"])
+            return src_ok and " Eq " in txt and "OperationAttributes" in txt and "tag" in txt
     return False
 
 
